@@ -29,6 +29,13 @@ def Carries (t : Transport) (pd : Pd) (pub enc : Bytes) : Prop :=
 def Accepted (C : Crypto) (t : Transport) (cr : Creds) (cl : Client) (r : Reply) : Prop :=
   ∃ pub enc shared, Carries t r.pd pub enc ∧ Proves C cr cl pub enc shared
 
+/-- the accessory acknowledged M3: the exchange returned an M4 envelope and (MRP, Companion —
+    AirPlay does not look at it) that envelope parses, carries no Error item and SeqNo = 4 -/
+def AckOk (t : Transport) (r : Reply) : Prop :=
+  ∃ pd4, r.m4 = .reply pd4 ∧
+    (t ≠ .airplay → ∃ tlv4, getPairingData t pd4 = .ok tlv4 ∧
+      tlv4.lookup tagError = none ∧ tlv4.lookup tagSeqNo = some [4])
+
 /-- the M3 payload the client answers with -/
 def m3Payload (C : Crypto) (cr : Creds) (shared dsig : Bytes) : Bytes :=
   C.aeadSeal (C.hkdf pvSalt pvInfo shared) msg03
@@ -139,7 +146,7 @@ theorem verify1_trace_no_enable (C : Crypto) (cr : Creds) (cl : Client) (pub enc
 theorem getPairingData_err {t : Transport} {pd : Pd} {e : RawErr}
     (h : getPairingData t pd = .error e) :
     e.isCheckFailure = true ∧
-      (t = .airplay → e = .invalidResponse ∨ e = .indexError) ∧
+      (t = .airplay → e = .invalidResponse ∨ e = .indexError ∨ e = .auth .deviceError) ∧
       (t ≠ .airplay → errorHandler e = .AuthenticationError) := by
   cases t <;> cases pd <;> simp only [getPairingData] at h
   all_goals
@@ -150,10 +157,67 @@ theorem getPairingData_err {t : Transport} {pd : Pd} {e : RawErr}
     subst h
     simp [RawErr.isCheckFailure, errorHandler]
 
+theorem getPairingData_ok_no_error {t : Transport} {pd : Pd} {tlv : Tlv}
+    (h : getPairingData t pd = .ok tlv) : tlv.lookup tagError = none := by
+  cases t <;> cases pd <;> simp only [getPairingData] at h
+  all_goals
+    (repeat' split at h)
+  all_goals
+    first
+    | (simp only [reduceCtorEq] at h)
+    | (simp only [Except.ok.injEq] at h
+       subst h
+       rename_i hne
+       exact Option.not_isSome_iff_eq_none.mp hne)
+
+theorem checkM4_ok {t : Transport} {pd4 : Pd} (h : checkM4 t pd4 = .ok ()) :
+    t ≠ .airplay → ∃ tlv4, getPairingData t pd4 = .ok tlv4 ∧
+      tlv4.lookup tagError = none ∧ tlv4.lookup tagSeqNo = some [4] := by
+  intro ht
+  cases t
+  case airplay => exact absurd rfl ht
+  all_goals
+    simp only [checkM4] at h
+    split at h
+    · simp at h
+    · rename_i tlv4 hpd
+      split at h
+      · rename_i hseq
+        exact ⟨tlv4, hpd, getPairingData_ok_no_error hpd, hseq⟩
+      · simp at h
+
+theorem checkM4_complete {t : Transport} {pd4 : Pd}
+    (h : t ≠ .airplay → ∃ tlv4, getPairingData t pd4 = .ok tlv4 ∧
+      tlv4.lookup tagError = none ∧ tlv4.lookup tagSeqNo = some [4]) :
+    checkM4 t pd4 = .ok () := by
+  cases t
+  case airplay => rfl
+  all_goals
+    obtain ⟨tlv4, h1, _, h3⟩ := h (by simp)
+    simp [checkM4, h1, h3]
+
+theorem checkM4_err {t : Transport} {pd4 : Pd} {e : RawErr} (h : checkM4 t pd4 = .error e) :
+    t ≠ .airplay ∧ e.isCheckFailure = true ∧ errorHandler e = .AuthenticationError := by
+  cases t
+  case airplay => simp [checkM4] at h
+  all_goals
+    simp only [checkM4] at h
+    split at h
+    · rename_i e' hpd
+      simp only [Except.error.injEq] at h
+      subst h
+      obtain ⟨h1, _, h3⟩ := getPairingData_err hpd
+      exact ⟨by simp, h1, h3 (by simp)⟩
+    · split at h
+      · simp at h
+      · simp only [Except.error.injEq] at h
+        subst h
+        exact ⟨by simp, rfl, rfl⟩
+
 /-- what `verify_credentials` returning normally means -/
 theorem verifyCredentials_ok {C : Crypto} {t : Transport} {cr : Creds} {cl : Client} {r : Reply}
     {shared : Bytes} (h : (verifyCredentials C t cr cl r).2 = .ok shared) :
-    r.m4 = none ∧ ∃ pub enc, Carries t r.pd pub enc ∧ Proves C cr cl pub enc shared := by
+    AckOk t r ∧ ∃ pub enc, Carries t r.pd pub enc ∧ Proves C cr cl pub enc shared := by
   unfold verifyCredentials at h
   split at h
   · simp at h
@@ -170,20 +234,23 @@ theorem verifyCredentials_ok {C : Crypto} {t : Transport} {cr : Creds} {cl : Cli
           have hv2 : (verify1 C cr cl pub enc).2 = .ok (sh, m3) := by rw [hv]
           split at h
           · simp at h
-          · rename_i hm4
-            simp only [Except.ok.injEq] at h
-            subst h
-            exact ⟨hm4, pub, enc, ⟨tlv, hpd, hpub, henc⟩, (verify1_ok hv2).1⟩
+          · rename_i pd4 hm4
+            split at h
+            · simp at h
+            · rename_i hck
+              simp only [Except.ok.injEq] at h
+              subst h
+              exact ⟨⟨pd4, hm4, checkM4_ok hck⟩, pub, enc, ⟨tlv, hpd, hpub, henc⟩, (verify1_ok hv2).1⟩
 
-/-- what `verify_credentials` raising means: a failed check of M2, or (M2 fine) the exchange of
-    M3 failed -/
+/-- what `verify_credentials` raising means: a failed check (of M2, or of the M4
+    acknowledgement on MRP / Companion), or — M2 fine — the exchange of M3 itself raised -/
 theorem verifyCredentials_err {C : Crypto} {t : Transport} {cr : Creds} {cl : Client} {r : Reply}
     {e : RawErr} (h : (verifyCredentials C t cr cl r).2 = .error e) :
     (e.isCheckFailure = true ∧
        (t = .airplay → e.cls ∈ [ExcClass.AuthenticationError, .KeyError, .IndexError, .ValueError,
           .InvalidTag, .InvalidResponseError]) ∧
        (t ≠ .airplay → errorHandler e = .AuthenticationError)) ∨
-    (r.m4 = some e ∧ Accepted C t cr cl r) := by
+    (r.m4 = .raises e ∧ Accepted C t cr cl r) := by
   unfold verifyCredentials at h
   split at h
   · rename_i e' hpd
@@ -192,7 +259,7 @@ theorem verifyCredentials_err {C : Crypto} {t : Transport} {cr : Creds} {cl : Cl
     obtain ⟨h1, h2, h3⟩ := getPairingData_err hpd
     refine Or.inl ⟨h1, ?_, h3⟩
     intro ht
-    rcases h2 ht with rfl | rfl <;> simp [RawErr.cls]
+    rcases h2 ht with rfl | rfl | rfl <;> simp [RawErr.cls]
   · rename_i tlv hpd
     split at h
     · simp only [Except.error.injEq] at h
@@ -220,7 +287,14 @@ theorem verifyCredentials_err {C : Crypto} {t : Transport} {cr : Creds} {cl : Cl
             simp only [Except.error.injEq] at h
             subst h
             exact Or.inr ⟨hm4, pub, enc, sh, ⟨tlv, hpd, hpub, henc⟩, (verify1_ok hv2).1⟩
-          · simp at h
+          · rename_i pd4 hm4
+            split at h
+            · rename_i e' hck
+              simp only [Except.error.injEq] at h
+              subst h
+              obtain ⟨h1, h2, h3⟩ := checkM4_err hck
+              exact Or.inl ⟨h2, fun ht => absurd ht h1, fun _ => h3⟩
+            · simp at h
 
 theorem verifyCredentials_trace_no_enable (C : Crypto) (t : Transport) (cr : Creds) (cl : Client)
     (r : Reply) : ∀ ev ∈ (verifyCredentials C t cr cl r).1, ev.isEnable = false := by
@@ -241,7 +315,7 @@ theorem verifyCredentials_trace_no_enable (C : Crypto) (t : Transport) (cr : Cre
           exact (hno ev hev).1
         · rename_i hv
           rw [hv] at hno
-          split
+          repeat' split
           all_goals
             intro ev hev
             simp only [List.mem_append, List.mem_cons, List.not_mem_nil, or_false] at hev
@@ -264,7 +338,9 @@ theorem verifyCredentials_ok_sent_m3 {C : Crypto} {t : Transport} {cr : Creds} {
         · rename_i m3 _
           split
           · simp_all
-          · exact ⟨m3, by simp⟩
+          · split
+            · simp_all
+            · exact ⟨m3, by simp⟩
 
 /-- (output_key, input_key) a transport derives from the X25519 shared secret (`verify2`) -/
 def transportKeys (C : Crypto) (t : Transport) (shared : Bytes) : Bytes × Bytes :=
